@@ -6,7 +6,7 @@ import sys
 def main():
     ap = argparse.ArgumentParser()
     ap.add_argument('prop')
-    ap.add_argument('--tier', default=os.environ.get('VERIF_TIER', 'quick'), choices=['quick', 'thorough'])
+    ap.add_argument('--tier', default=os.environ.get('VERIF_TIER', 'quick'), choices=['quick', 'thorough', 'extended'])
     ap.add_argument('--replay')
     ap.add_argument('--only')
     ap.add_argument('--jobs', type=int)
